@@ -177,7 +177,8 @@ LEMMAS = {
            'find_output_and_command, parse_command_line and parse_line from arbitrary loop-head states with callees as arbitrary results; their composition over '
            'a line of any length is an induction argued in DESIGN.md 8.6 (capacity: buffer 24/64, accumulated text 12/32).',
     'C08': 'Also: per-iteration lemmas for the error returns of the token scanner (kind and line of the caller), find_label (EmptyLabel), the line structure '
-           'functions and the line loop parse_lines (one instruction per line, line number k+1, errors passed on) from arbitrary states (DESIGN.md 8.6).',
+           'functions and the line loop parse_lines (one instruction per line, line number k+1, errors passed on) from arbitrary states (DESIGN.md 8.6); '
+           'a directive line whose pre-processor (stub) adds 0..2 arbitrary instructions, followed by two arbitrary lines: every instruction carries its own line number.',
     'C02': 'Also: per-character lemmas of expand_by_wrapper (phases between segments / after $ or % / inside {name / after backslash / end, single and spread), '
            'the re-split configuration of the scanner and the word-list loop, from arbitrary states: templates, names and values of any length up to the '
            'capacity 24/64 (DESIGN.md 8.6).',
@@ -201,7 +202,8 @@ LEMMAS = {
            'rendering with only the backslash escaped) + the scanner and argument-list lemmas that read that text back: values of any length outside the listed classes '
            '(DESIGN.md 8.19).',
     'C10': 'Also: every operation once from an arbitrary error-protocol state with the state compared field by field afterwards, and the error-related '
-           'obligations of the runner step lemma (DESIGN.md 8.7, 8.9).',
+           'obligations of the runner step lemma (DESIGN.md 8.7, 8.9); positions: every instruction of a text carries the number of its own line, also behind a '
+           'directive that added instructions (job shared with C08).',
     'C14': 'Also: lemmas for the include argument loop (25 includer/path pairs, arbitrary collected list and parse_file result), directive dispatch, parse_file, '
            'parse_text_with_source_file and parse_lines: include trees of any shape by induction on depth (DESIGN.md 8.10).',
     'C19': 'Also: the REAL bodies (script.ds as compiled into the MIR constants of the current tree) of unset, concat, map_contains_key, array_is_empty, set_is_empty, '
